@@ -61,6 +61,13 @@ Order(family, decl) == LET p == ImplHeader(family, decl).params IN
 \* demanded by the impl: PrintImpl keeps `bound`, and no family rebuilds the where-clause from scratch
 Bounds(family, decl) == LET p == ImplHeader(family, decl).params IN
     \A i \in 1..Len(decl) : decl[i].bound => \E j \in 1..Len(p) : p[j].name = decl[i].name /\ p[j].bound
+\* Additive: an impl's where-clause is the declaration's own where-clause together with what the family adds, and what
+\* it adds is a function of the fields and parameters only - never of whether the declaration has a where-clause
+\* (make_where_clause().predicates.extend(..), not get_or_insert_with / a freshly built clause)
+AddedPreds(family, decl) == {<<family, decl[i].name>> : i \in {j \in 1..Len(decl) : decl[j].k = "ty"}}
+ImplWhere(family, decl, userWhere) == userWhere \cup AddedPreds(family, decl)
+Additive(family, decl) == \A uw \in SUBSET {<<"user", "T: Default">>} :
+    ImplWhere(family, decl, uw) \ uw = ImplWhere(family, decl, {}) /\ uw \subseteq ImplWhere(family, decl, uw)
 \* fresh parameters do not collide with the user's
 FreshOk(family, decl) == LET h == ImplHeader(family, decl) IN
     \A i, j \in 1..Len(h.params) : i # j => h.params[i].name # h.params[j].name
